@@ -561,6 +561,7 @@ def tree_features(prog):
     enum_vars = set()
 
     enum_lists = set()
+    nat_vars = set()      # unannotated variables whose initialiser is a Nat expression although the generator typed them Int
 
     def static_nat(e):
         """the expression's own Erg type is Nat (whatever type the generator demanded of it: a Nat is accepted for an Int)"""
@@ -568,7 +569,7 @@ def tree_features(prog):
         if k == "lit":
             return e[1] == "Nat" or (e[1] == "Int" and e[2] >= 0)      # the literal `1` is a Nat whatever was asked for
         if k == "var":
-            return e[2] == "Nat"
+            return e[2] == "Nat" or e[1] in nat_vars
         if k == "bin":
             return e[4] == "Nat"
         if k == "if":
@@ -633,8 +634,10 @@ def tree_features(prog):
     def stmts(ss):
         for s in ss:
             if s[0] == "def":
-                if is_enum_nat(s[3]) and s[2] == "Nat" and not s[4]:
+                if is_enum_nat(s[3]) and s[2] in ("Nat", "Int") and not s[4]:
                     enum_vars.add(s[1])
+                if s[2] in ("Nat", "Int") and not s[4] and static_nat(s[3]):
+                    nat_vars.add(s[1])
                 if isinstance(s[2], tuple) and s[2][0] == "List" and list_has_enum(s[3]):
                     enum_lists.add(s[1])
                 walk(s[3])
@@ -654,8 +657,10 @@ def tree_features(prog):
                 walk(s[1]); stmts(s[2]); stmts(s[3])
             elif s[0] == "tupdef":
                 for (nm, ty), x in zip(s[1], s[2]):
-                    if ty == "Nat" and is_enum_nat(x):
+                    if ty in ("Nat", "Int") and is_enum_nat(x):
                         enum_vars.add(nm)
+                    if ty in ("Nat", "Int") and static_nat(x):
+                        nat_vars.add(nm)
                     walk(x)
             elif s[0] == "exprstmt":
                 walk(s[1])
